@@ -793,8 +793,13 @@ bool Annotator::assignAllIds()
 {
     auto model = pFunc()->mModel.lock();
     if (model != nullptr) {
+        // The model may have been edited since the identifier list was built: rebuild it so that
+        // the new identifiers are unique with respect to what the model contains now.
+        pFunc()->buildIdList();
         size_t initialSize = pFunc()->idCount();
         pFunc()->doSetAllAutomaticIds();
+        // The stored hash no longer describes the model, force a rebuild on the next lookup.
+        pFunc()->mHash = 0;
         return pFunc()->idCount() > initialSize;
     }
     pFunc()->addIssueNoModel();
@@ -821,6 +826,8 @@ bool Annotator::assignIds(CellmlElementType type)
         return false;
     }
 
+    // The model may have been edited since the identifier list was built.
+    pFunc()->buildIdList();
     size_t initialSize = pFunc()->idCount();
 
     switch (type) {
@@ -1316,6 +1323,8 @@ std::string Annotator::AnnotatorImpl::setAutoId(const AnyCellmlElementPtr &item)
                 return newId;
             }
 
+            // Always rebuild the identifier list: the hash does not see every change to the model.
+            mHash = 0;
             update();
             newId = makeUniqueId();
 
@@ -1325,6 +1334,8 @@ std::string Annotator::AnnotatorImpl::setAutoId(const AnyCellmlElementPtr &item)
 
             setId(item, newId);
             mIdList.insert(std::make_pair(newId, convertToWeak(item)));
+            // The stored hash no longer describes the model, force a rebuild on the next lookup.
+            mHash = 0;
         } else {
             addIssueNoModel();
         }
